@@ -5,6 +5,7 @@ import Model.PolicyObj
 import Model.Store
 import Model.Enfold
 import Model.CachedGuard
+import Model.Migration
 /-!
 # `vaktdrv`: one case per line in, one result per line out
 -/
@@ -135,6 +136,28 @@ def runCG (cfg : Cfg) (cap : Option Nat) : CG (Vakt.Lru Nat Bool) → List (COp 
       | _, _ => "-"
     out :: runCG cfg cap r.1 rest
 
+open Vakt.Migration in
+def pMigReq : P (Req × Fault)
+  | d :: n :: f :: ts => do
+    let dir ← (if d == "U" then some Dir.up else if d == "D" then some Dir.down else none)
+    let num ← (if n == "-" then some none else n.toNat?.map some)
+    let fault ← (if f == "-" then some Fault.none
+                 else if f.startsWith "b" then (f.drop 1).toString.toNat?.map Fault.body
+                 else if f.startsWith "s" then (f.drop 1).toString.toNat?.map Fault.save
+                 else none)
+    pure ((⟨dir, num⟩, fault), ts)
+  | _ => none
+
+open Vakt.Migration in
+def runMig (orders : List Nat) : MState → List (Req × Fault) → List String
+  | _, [] => []
+  | st, (r, f) :: rest =>
+    let x := request orders st r f
+    let newTrace := x.1.trace.drop st.trace.length
+    let showT := ",".intercalate (newTrace.map fun (d, n) => (match d with | .up => "U" | .down => "D") ++ toString n)
+    ((if x.2 then "R" else "C") ++ " last=" ++ toString x.1.last ++ " schema=" ++
+      ",".intercalate ((sortAsc x.1.schema).map toString) ++ " trace=" ++ showT) :: runMig orders x.1 rest
+
 def handle (toks : List String) : Option String :=
   match toks with
   | "ECHO" :: "val" :: ts => do let v ← full (pVal ts); pure ("ECHO val " ++ showVal v)
@@ -208,6 +231,10 @@ def handle (toks : List String) : Option String :=
     let (eager, ts) ← pBool ts
     let ops ← full (pCounted pCOp ts)
     pure (" | ".intercalate (runCG ⟨sorted, eager⟩ cap (Vakt.CachedGuard.initial (Vakt.CachedGuard.lruBackend cap) []) ops))
+  | "MIG" :: ts => do
+    let (orders, ts) ← pCounted pNat ts
+    let reqs ← full (pCounted pMigReq ts)
+    pure (" | ".intercalate (runMig orders Vakt.Migration.initial reqs))
   | "POBJ" :: ts => do
     let (ctor, ts) ← pCounted pAssign ts
     let steps ← full (pCounted pAssign ts)
